@@ -28,20 +28,25 @@ RetOK(v) == [k |-> "ok", v |-> v]
 RetKO == [k |-> "ko"]
 
 \* ---- frames (contexts/state.py)
-Fr(pos) == [pos |-> pos, ast |-> <<>>, cst |-> None, cut |-> FALSE]
+\* `last` is ParseState.last_node: the node most recently appended / merged into the frame.  Only GENERATED parsers read it
+\* (nameset/nameadd/result bind last_node: KF-C02-1); the model interpreter binds the value returned by the sub-expression.
+Gen == "backend" \in DOMAIN Cfg /\ Cfg.backend = "gen"
+Fr(pos) == [pos |-> pos, ast |-> <<>>, cst |-> None, cut |-> FALSE, last |-> None]
 Top(st) == st[Len(st)]
 SetTop(st, f) == [st EXCEPT ![Len(st)] = f]
-Push(st) == Append(st, [pos |-> Top(st).pos, ast |-> Top(st).ast, cst |-> None, cut |-> FALSE])
+Push(st) == Append(st, [pos |-> Top(st).pos, ast |-> Top(st).ast, cst |-> None, cut |-> FALSE, last |-> None])
 Undo(st) == SubSeq(st, 1, Len(st) - 1)
 Merge(st) == LET prev == Top(st)  rest == Undo(st)  cur == Top(rest) IN
-             SetTop(rest, [cur EXCEPT !.ast = prev.ast, !.cst = CstMerge(cur.cst, prev.cst), !.pos = prev.pos])
-AppendNode(st, node) == SetTop(st, [Top(st) EXCEPT !.cst = CstAdd(@, node)])
+             SetTop(rest, [cur EXCEPT !.ast = prev.ast, !.cst = CstMerge(cur.cst, prev.cst), !.pos = prev.pos, !.last = prev.cst])
+AppendNode(st, node) == SetTop(st, [Top(st) EXCEPT !.cst = CstAdd(@, node), !.last = node])
 Goto(st, p) == SetTop(st, [Top(st) EXCEPT !.pos = p])
 SetCut(st) == SetTop(st, [Top(st) EXCEPT !.cut = TRUE])
 \* isolate(): pop the iteration frame keeping position and ast, and (since the fix recorded as KF-C05-1) its cut flag
 PopIso(st) == LET iso == Top(st)  rest == Undo(st)  o == Top(rest) IN
               SetTop(rest, [o EXCEPT !.pos = iso.pos, !.ast = iso.ast, !.cut = o.cut \/ iso.cut])
 DefineFr(st, e) == SetTop(st, [Top(st) EXCEPT !.ast = DefineAll(DefineAll(@, DefsL(e), OpenL(<<>>)), Defs(e) \ DefsL(e), None)])
+\* generated parsers call define() for Sequence nodes only (ngparser_gen.walk_Sequence): KF-C02-2
+DefineOpt(st, e) == IF Gen THEN st ELSE DefineFr(st, e)
 FoldFr(f) == IF f.ast = <<>> THEN CstFinal(f.cst)
              ELSE IF AstHas(f.ast, "@") THEN AstGet(f.ast, "@")
              ELSE Dict(f.ast)
@@ -71,7 +76,7 @@ Optimized(e) == CASE e.op \in Nary -> [e EXCEPT !.es = [i \in 1..Len(e.es) |-> O
                                      IF x.op \in {"opt", "star"} \/ (x.op = "join" /\ ~x.plus) THEN x ELSE [e EXCEPT !.e = x]
                   [] e.op \in Unary -> [e EXCEPT !.e = Optimized(e.e)]
                   [] OTHER -> e
-BodyExp(name) == Optimized(RuleRec(name).exp)
+BodyExp(name) == IF Gen THEN RuleRec(name).exp ELSE Optimized(RuleRec(name).exp)      \* the code generator walks the model as written
 Memoizable(name) == Memoize /\ RuleRec(name).memo /\ ~RuleRec(name).nomemo
 IsLrec(name) == RuleRec(name).lrec /\ Cfg.lr
 
@@ -80,8 +85,11 @@ MInit(start) ==
   /\ ret = NoRet /\ fr = <<Fr(0)>> /\ memo = <<>> /\ seeds = <<>> /\ nmiss = 0 /\ done = FALSE /\ steps = 0
 
 \* ---------------------------------------------------------------- leaves
-LeafOps == {"tok", "pat", "opat", "dot", "const", "constbad", "void", "fail", "eof", "cut", "emptyclosure", "meta"}
-Leaf ==
+LeafOps == {"tok", "pat", "opat", "dot", "const", "oconst", "constbad", "void", "fail", "eof", "cut", "emptyclosure", "meta"}
+\* `cv` (trace mode): the evaluated value of a string constant ("oconst": interpolation / evaluation is C17's subject, not modelled
+\* here) is taken from the recorded "const" event
+NoCv == [ok |-> FALSE, v |-> None]
+LeafW(cv) ==
   /\ ret = NoRet /\ Running(LeafOps)
   /\ LET e == TopK.e  p0 == Top(fr).pos  p == Skip(p0) IN
      CASE e.op = "tok" -> IF TokAt(p, e.s)
@@ -100,6 +108,8 @@ Leaf ==
                            ELSE fr' = Goto(fr, p) /\ ret' = RetKO /\ memo' = memo
        [] e.op = "const" -> fr' = AppendNode(Goto(fr, p), e.v) /\ ret' = RetOK(e.v) /\ memo' = memo
        [] e.op = "constbad" -> fr' = Goto(fr, p) /\ ret' = [k |-> "kosem"] /\ memo' = memo
+       [] e.op = "oconst" -> IF cv.ok THEN fr' = AppendNode(Goto(fr, p), cv.v) /\ ret' = RetOK(cv.v) /\ memo' = memo
+                             ELSE fr' = Goto(fr, p) /\ ret' = [k |-> "kosem"] /\ memo' = memo
        [] e.op = "void" -> fr' = Goto(fr, p) /\ ret' = RetOK(Unit) /\ memo' = memo
        [] e.op = "fail" -> fr' = Goto(fr, p) /\ ret' = RetKO /\ memo' = memo
        [] e.op = "eof" -> fr' = Goto(fr, p) /\ ret' = (IF p = N THEN RetOK(None) ELSE RetKO) /\ memo' = memo
@@ -108,6 +118,8 @@ Leaf ==
                           \* prune_memos_on_cut: entries before the cut position can never be asked for again; guards are kept
                           /\ memo' = IF Prune THEN SelectSeq(memo, LAMBDA m : m.key[1] >= p0 \/ ("guard" \in DOMAIN m /\ m.guard)) ELSE memo
   /\ ctl' = PopK /\ UNCHANGED <<seeds, nmiss, done>>
+
+Leaf == LeafW(NoCv)
 
 Failing(r) == r.k \in {"ko", "kosem"}
 
@@ -131,14 +143,14 @@ AltStep ==
   /\ Running({"alt", "opt"})
   /\ LET es == IF TopK.e.op = "alt" THEN TopK.e.es ELSE <<TopK.e.e>> IN
      \/ /\ ret = NoRet /\ TopK.i = 0
-        /\ ctl' = Append(SetK([TopK EXCEPT !.i = 1]), K(es[1])) /\ fr' = DefineFr(Push(fr), es[1]) /\ ret' = ret
+        /\ ctl' = Append(SetK([TopK EXCEPT !.i = 1]), K(es[1])) /\ fr' = DefineOpt(Push(fr), es[1]) /\ ret' = ret
      \/ /\ ret.k = "ok" /\ TopK.i >= 1 /\ fr' = Merge(fr) /\ ctl' = PopK /\ ret' = ret
      \/ /\ ret.k = "kosem" /\ TopK.i >= 1 /\ fr' = Undo(fr) /\ ctl' = PopK /\ ret' = ret        \* FailedSemantics is not a FailedParse here
      \/ /\ ret.k = "ko" /\ TopK.i >= 1
         /\ IF Top(fr).cut THEN ctl' = PopK /\ ret' = ret /\ fr' = Undo(fr)                        \* committed: re-raise
            ELSE IF TopK.i < Len(es)
            THEN /\ ctl' = Append(SetK([TopK EXCEPT !.i = @ + 1]), K(es[TopK.i + 1]))
-                /\ fr' = DefineFr(Push(Undo(fr)), es[TopK.i + 1]) /\ ret' = NoRet
+                /\ fr' = DefineOpt(Push(Undo(fr)), es[TopK.i + 1]) /\ ret' = NoRet
            ELSE ctl' = PopK /\ fr' = Undo(fr) /\ ret' = (IF TopK.e.op = "opt" THEN RetOK(None) ELSE RetKO)
   /\ UNCHANGED <<memo, seeds, nmiss, done>>
 
@@ -148,13 +160,14 @@ WrapStep ==
   /\ \/ /\ ret = NoRet /\ TopK.i = 0
         /\ ctl' = Append(SetK([TopK EXCEPT !.i = 1]), K(TopK.e.e)) /\ UNCHANGED <<fr, ret>>
      \/ /\ ret.k = "ok" /\ TopK.i = 1 /\ ctl' = PopK
-        /\ LET e == TopK.e  v == ret.v  f == Top(fr) IN
+        /\ LET e == TopK.e  f == Top(fr)  v == IF Gen THEN f.last ELSE ret.v IN
            CASE e.op = "group" -> fr' = fr /\ ret' = ret
              [] e.op = "named" -> fr' = SetTop(fr, [f EXCEPT !.ast = AstSet(@, e.name, v)]) /\ ret' = ret
              [] e.op = "namedlist" -> fr' = SetTop(fr, [f EXCEPT !.ast = AstSetList(@, e.name, v)]) /\ ret' = ret
              [] e.op = "ovr" -> fr' = SetTop(fr, [f EXCEPT !.ast = AstSet(@, "@", v)]) /\ ret' = RetOK(Dict1("@", v))
-             [] e.op = "ovrlist" -> LET v2 == IF AstHas(f.ast, "@") THEN v ELSE OpenL(<<v>>) IN
-                                    fr' = SetTop(fr, [f EXCEPT !.ast = AstSet(@, "@", v2)]) /\ ret' = RetOK(Dict1("@", v2))
+             [] e.op = "ovrlist" -> IF Gen THEN fr' = SetTop(fr, [f EXCEPT !.ast = AstSetList(@, "@", v)]) /\ ret' = ret   \* nameadd('@')
+                                    ELSE LET v2 == IF AstHas(f.ast, "@") THEN v ELSE OpenL(<<v>>) IN
+                                         fr' = SetTop(fr, [f EXCEPT !.ast = AstSet(@, "@", v2)]) /\ ret' = RetOK(Dict1("@", v2))
      \/ /\ Failing(ret) /\ TopK.i = 1 /\ ctl' = PopK /\ UNCHANGED <<fr, ret>>
   /\ UNCHANGED <<memo, seeds, nmiss, done>>
 
@@ -223,7 +236,8 @@ RepStep ==
         /\ memo' = memo
      \/ /\ TopK.i = 4 /\ ret.k = "ok"                                 \* SepOk: separator matched: append it (join), commit
         /\ LET iso == Top(fr)  s1 == PopIso(fr)  o == Top(s1)
-               s2 == SetCut(SetTop(s1, [o EXCEPT !.cst = IF e.keep THEN CstAdd(@, CstFinal(iso.cst)) ELSE @])) IN
+               s2 == SetCut(SetTop(s1, [o EXCEPT !.cst = IF e.keep THEN CstAdd(@, CstFinal(iso.cst)) ELSE @,
+                                                 !.last = IF e.keep THEN CstFinal(iso.cst) ELSE @])) IN
            /\ fr' = Push(s2)
            /\ ctl' = Append(SetK([TopK EXCEPT !.i = 2]), K(e.e)) /\ ret' = NoRet
            /\ memo' = IF Prune THEN SelectSeq(memo, LAMBDA m : m.key[1] >= iso.pos \/ ("guard" \in DOMAIN m /\ m.guard)) ELSE memo
@@ -236,7 +250,7 @@ RepStep ==
      \/ /\ TopK.i = 2 /\ ret.k = "ok"                                 \* IterOk
         /\ memo' = memo
         /\ LET iso == Top(fr)  s1 == PopIso(fr)  o == Top(s1)
-               s2 == SetTop(s1, [o EXCEPT !.cst = CstAdd(@, CstFinal(iso.cst))]) IN
+               s2 == SetTop(s1, [o EXCEPT !.cst = CstAdd(@, CstFinal(iso.cst)), !.last = CstFinal(iso.cst)]) IN
            IF iso.pos = TopK.p0
            THEN /\ ctl' = PopK                                        \* "matched on no input": the option fails
                 /\ IF Top(s2).cut THEN LET c == CutOut(Undo(s2), e) IN fr' = c.fr /\ ret' = c.ret
